@@ -442,151 +442,162 @@ func monC14(o *TypeOps, c Config, r *Rep) {
 					}
 				}
 			}
-			// binary helpers against a second list
-			vals2 := lists[(li*5+2)%len(lists)]
-			in2 := mkList(o.T, vals2, false)
-			want2 := canonList(in2)
-			if o.Union != nil {
-				a, b := mkList(o.T, vals, nilList), mkList(o.T, vals2, false)
-				var out reflect.Value
-				if pn := try(func() { out = reflect.ValueOf(o.Union(a.Interface(), b.Interface())) }); pn != "" {
-					r.Fail("union/"+class, "panicked: %s", pn)
-				} else {
-					got := canonList(out)
-					ok := true
-					if out.Len() < in.Len() || strings.Join(got[:in.Len()], "\x00") != strings.Join(want, "\x00") {
-						r.Fail("union/"+class+"/first-list-verbatim", "the result does not start with the first list\n a  =%v\n b  =%v\n out=%v", want, want2, got)
-						ok = false
-					}
-					for i := 0; ok && i < in2.Len(); i++ {
-						if !anyEq(out, in2.Index(i)) {
-							r.Fail("union/"+class+"/covers-second", "element %s of the second list has no Equal element in the result\n a  =%v\n b  =%v\n out=%v", want2[i], want, want2, got)
-							ok = false
-						}
-					}
-					// the tail: items of b, in b's order, none Equal to an element of a
-					j := 0
-					for i := in.Len(); ok && i < out.Len(); i++ {
-						for j < len(want2) && want2[j] != got[i] {
-							j++
-						}
-						if j == len(want2) {
-							r.Fail("union/"+class+"/tail-order", "the appended items are not a subsequence of the second list\n a  =%v\n b  =%v\n out=%v", want, want2, got)
-							ok = false
-							break
-						}
-						j++
-						if anyEq(in, out.Index(i)) {
-							r.Fail("union/"+class+"/tail-new", "appended item %s is Equal to an element of the first list\n a  =%v\n out=%v", got[i], want, got)
-							ok = false
-						}
-					}
-					if ok {
-						r.Ok("union/" + class)
-					}
-				}
+			// binary helpers against second lists: a seed-rotated one and two with duplicates
+			seconds := [][]reflect.Value{lists[(li*5+2)%len(lists)]}
+			if len(lists) > 8 {
+				seconds = append(seconds, lists[4], lists[7])
 			}
-			if o.Intersect != nil {
-				a, b := mkList(o.T, vals, nilList), mkList(o.T, vals2, false)
-				var out reflect.Value
-				if pn := try(func() { out = reflect.ValueOf(o.Intersect(a.Interface(), b.Interface())) }); pn != "" {
-					r.Fail("intersect/"+class, "panicked: %s", pn)
-				} else {
-					got := canonList(out)
-					ok := true
-					// subsequence of a
-					j := 0
-					for i := 0; ok && i < len(got); i++ {
-						for j < len(want) && want[j] != got[i] {
-							j++
-						}
-						if j == len(want) {
-							r.Fail("intersect/"+class+"/order", "result is not a subsequence of the first list\n a  =%v\n b  =%v\n out=%v", want, want2, got)
-							ok = false
-							break
-						}
-						j++
-					}
-					for i := 0; ok && i < out.Len(); i++ {
-						if !anyEq(in2, out.Index(i)) {
-							r.Fail("intersect/"+class+"/not-in-second", "result element %s has no Equal element in the second list\n a  =%v\n b  =%v\n out=%v", got[i], want, want2, got)
-							ok = false
-						}
-					}
-					for i := 0; ok && i < in.Len(); i++ {
-						if anyEq(in2, in.Index(i)) && !anyEq(out, in.Index(i)) {
-							r.Fail("intersect/"+class+"/missing", "element %s is in both lists but not in the result\n a  =%v\n b  =%v\n out=%v", want[i], want, want2, got)
-							ok = false
-						}
-					}
-					if ok {
-						r.Ok("intersect/" + class)
-					}
-				}
-			}
-			if o.UnionMap != nil || o.InterMap != nil {
-				mt := reflect.MapOf(o.T, reflect.TypeOf(struct{}{}))
-				mk := func(vs []reflect.Value) (reflect.Value, map[string]bool) {
-					m := reflect.MakeMap(mt)
-					s := map[string]bool{}
-					for _, v := range vs {
-						m.SetMapIndex(DeepClone(v), reflect.ValueOf(struct{}{}))
-						s[Canon(v)] = true
-					}
-					return m, s
-				}
-				keys := func(m reflect.Value) map[string]bool {
-					s := map[string]bool{}
-					for _, k := range m.MapKeys() {
-						s[Canon(k)] = true
-					}
-					return s
-				}
-				if o.UnionMap != nil {
-					a, sa := mk(vals)
-					b, sb := mk(vals2)
+			for _, vals2 := range seconds {
+				in2 := mkList(o.T, vals2, false)
+				want2 := canonList(in2)
+				if o.Union != nil {
+					a, b := mkList(o.T, vals, nilList), mkList(o.T, vals2, false)
 					var out reflect.Value
-					if pn := try(func() { out = reflect.ValueOf(o.UnionMap(a.Interface(), b.Interface())) }); pn != "" {
-						r.Fail("unionmap/"+class, "panicked: %s", pn)
+					if pn := try(func() { out = reflect.ValueOf(o.Union(a.Interface(), b.Interface())) }); pn != "" {
+						r.Fail("union/"+class, "panicked: %s", pn)
 					} else {
-						exp := map[string]bool{}
-						for k := range sa {
-							exp[k] = true
+						got := canonList(out)
+						ok := true
+						if out.Len() < in.Len() || strings.Join(got[:in.Len()], "\x00") != strings.Join(want, "\x00") {
+							r.Fail("union/"+class+"/first-list-verbatim", "the result does not start with the first list\n a  =%v\n b  =%v\n out=%v", want, want2, got)
+							ok = false
 						}
-						for k := range sb {
-							exp[k] = true
-						}
-						if !sameSet(exp, keys(out)) {
-							r.Fail("unionmap/"+class, "result keys %v, want %v", sortedSet(keys(out)), sortedSet(exp))
-						} else {
-							r.Ok("unionmap/" + class)
-						}
-					}
-				}
-				if o.InterMap != nil {
-					a, sa := mk(vals)
-					b, sb := mk(vals2)
-					var out reflect.Value
-					if pn := try(func() { out = reflect.ValueOf(o.InterMap(a.Interface(), b.Interface())) }); pn != "" {
-						r.Fail("intermap/"+class, "panicked: %s", pn)
-					} else {
-						exp := map[string]bool{}
-						for k := range sa {
-							if sb[k] {
-								exp[k] = true
+						for i := 0; ok && i < in2.Len(); i++ {
+							if !anyEq(out, in2.Index(i)) {
+								r.Fail("union/"+class+"/covers-second", "element %s of the second list has no Equal element in the result\n a  =%v\n b  =%v\n out=%v", want2[i], want, want2, got)
+								ok = false
 							}
 						}
-						if !sameSet(exp, keys(out)) {
-							r.Fail("intermap/"+class, "result keys %v, want %v", sortedSet(keys(out)), sortedSet(exp))
-						} else {
-							r.Ok("intermap/" + class)
+						// the tail: items of b, in b's order, none Equal to an element of a
+						j := 0
+						for i := in.Len(); ok && i < out.Len(); i++ {
+							for j < len(want2) && want2[j] != got[i] {
+								j++
+							}
+							if j == len(want2) {
+								r.Fail("union/"+class+"/tail-order", "the appended items are not a subsequence of the second list\n a  =%v\n b  =%v\n out=%v", want, want2, got)
+								ok = false
+								break
+							}
+							j++
+							if anyEq(in, out.Index(i)) {
+								r.Fail("union/"+class+"/tail-new", "appended item %s is Equal to an element of the first list\n a  =%v\n out=%v", got[i], want, got)
+								ok = false
+							}
+							for k := in.Len(); ok && k < i; k++ {
+								if eq(out.Index(k), out.Index(i)) {
+									r.Fail("union/"+class+"/tail-new", "appended items %d and %d are Equal: the second one was not a new item\n a  =%v\n b  =%v\n out=%v", k, i, want, want2, got)
+									ok = false
+								}
+							}
 						}
-						if !sameSet(keys(a), sa) || !sameSet(keys(b), sb) {
-							r.Fail("intermap/"+class+"/input-modified", "an input map was modified")
+						if ok {
+							r.Ok("union/" + class)
 						}
 					}
 				}
-			}
+				if o.Intersect != nil {
+					a, b := mkList(o.T, vals, nilList), mkList(o.T, vals2, false)
+					var out reflect.Value
+					if pn := try(func() { out = reflect.ValueOf(o.Intersect(a.Interface(), b.Interface())) }); pn != "" {
+						r.Fail("intersect/"+class, "panicked: %s", pn)
+					} else {
+						got := canonList(out)
+						ok := true
+						// subsequence of a
+						j := 0
+						for i := 0; ok && i < len(got); i++ {
+							for j < len(want) && want[j] != got[i] {
+								j++
+							}
+							if j == len(want) {
+								r.Fail("intersect/"+class+"/order", "result is not a subsequence of the first list\n a  =%v\n b  =%v\n out=%v", want, want2, got)
+								ok = false
+								break
+							}
+							j++
+						}
+						for i := 0; ok && i < out.Len(); i++ {
+							if !anyEq(in2, out.Index(i)) {
+								r.Fail("intersect/"+class+"/not-in-second", "result element %s has no Equal element in the second list\n a  =%v\n b  =%v\n out=%v", got[i], want, want2, got)
+								ok = false
+							}
+						}
+						for i := 0; ok && i < in.Len(); i++ {
+							if anyEq(in2, in.Index(i)) && !anyEq(out, in.Index(i)) {
+								r.Fail("intersect/"+class+"/missing", "element %s is in both lists but not in the result\n a  =%v\n b  =%v\n out=%v", want[i], want, want2, got)
+								ok = false
+							}
+						}
+						if ok {
+							r.Ok("intersect/" + class)
+						}
+					}
+				}
+				if o.UnionMap != nil || o.InterMap != nil {
+					mt := reflect.MapOf(o.T, reflect.TypeOf(struct{}{}))
+					mk := func(vs []reflect.Value) (reflect.Value, map[string]bool) {
+						m := reflect.MakeMap(mt)
+						s := map[string]bool{}
+						for _, v := range vs {
+							m.SetMapIndex(DeepClone(v), reflect.ValueOf(struct{}{}))
+							s[Canon(v)] = true
+						}
+						return m, s
+					}
+					keys := func(m reflect.Value) map[string]bool {
+						s := map[string]bool{}
+						for _, k := range m.MapKeys() {
+							s[Canon(k)] = true
+						}
+						return s
+					}
+					if o.UnionMap != nil {
+						a, sa := mk(vals)
+						b, sb := mk(vals2)
+						var out reflect.Value
+						if pn := try(func() { out = reflect.ValueOf(o.UnionMap(a.Interface(), b.Interface())) }); pn != "" {
+							r.Fail("unionmap/"+class, "panicked: %s", pn)
+						} else {
+							exp := map[string]bool{}
+							for k := range sa {
+								exp[k] = true
+							}
+							for k := range sb {
+								exp[k] = true
+							}
+							if !sameSet(exp, keys(out)) {
+								r.Fail("unionmap/"+class, "result keys %v, want %v", sortedSet(keys(out)), sortedSet(exp))
+							} else {
+								r.Ok("unionmap/" + class)
+							}
+						}
+					}
+					if o.InterMap != nil {
+						a, sa := mk(vals)
+						b, sb := mk(vals2)
+						var out reflect.Value
+						if pn := try(func() { out = reflect.ValueOf(o.InterMap(a.Interface(), b.Interface())) }); pn != "" {
+							r.Fail("intermap/"+class, "panicked: %s", pn)
+						} else {
+							exp := map[string]bool{}
+							for k := range sa {
+								if sb[k] {
+									exp[k] = true
+								}
+							}
+							if !sameSet(exp, keys(out)) {
+								r.Fail("intermap/"+class, "result keys %v, want %v", sortedSet(keys(out)), sortedSet(exp))
+							} else {
+								r.Ok("intermap/" + class)
+							}
+							if !sameSet(keys(a), sa) || !sameSet(keys(b), sb) {
+								r.Fail("intermap/"+class+"/input-modified", "an input map was modified")
+							}
+						}
+					}
+				}
+			} // seconds
 			// predicates with a call log
 			preds := []struct {
 				name string
